@@ -101,7 +101,7 @@ def correspondence(ctx):
                 vals = [float("nan") if t == "nan" else h2f(t) for t in a.split(" ")[1:]]
                 for k, v in zip(S.VA_KEYS, vals):
                     wv = e[1][k]
-                    if math.isnan(v) != math.isnan(wv) or (not math.isnan(v) and angdiff(v, wv) > 1e-6):
+                    if math.isnan(v) != math.isnan(wv) or (not math.isnan(v) and differs(k, v, wv)):
                         ok = False
         else:
             ok = a == e[0]
